@@ -744,3 +744,48 @@ Proof.
   intros HL. apply legal_from_app in HL. destruct HL as [_ HL]. cbn [legal_from] in HL. destruct HL as [H1 _].
   rewrite <- H1, reg_step_ret, lookup_get. reflexivity.
 Qed.
+
+(* ---------- call sites are ONE registry operation ---------- *)
+Definition site_events (self : bytes) (x : ret) : list bytes :=
+  match x with
+  | ROwner prev => if negb (bytes_eqb (o_proto prev) self) then [o_sid prev] else []
+  | _ => []
+  end.
+Lemma component_claim_one_step self r k sid :
+  component_claim self r k sid =
+  (fst (reg_step r (OClaim k (mkOwner self sid k))), site_events self (snd (reg_step r (OClaim k (mkOwner self sid k))))).
+Proof. unfold component_claim, site_events. destruct (reg_step r (OClaim k (mkOwner self sid k))) as [r' x]. reflexivity. Qed.
+
+(* the shape that is NOT allowed: decide from a Lookup taken before the Claim.  [mid] is whatever other
+   parties do to the registry between the two calls. *)
+Definition lookup_then_claim (self : bytes) (mid : registry -> registry) (r : registry) (k : key) (sid : bytes)
+  : registry * list bytes :=
+  let seen := snd (reg_step r (OLookup k)) in
+  let r1 := mid r in
+  (fst (reg_step r1 (OClaim k (mkOwner self sid k))), site_events self seen).
+
+Lemma lookup_then_claim_sequentially_same self r k sid :
+  lookup_then_claim self (fun x => x) r k sid = component_claim self r k sid.
+Proof.
+  rewrite component_claim_one_step. unfold lookup_then_claim. f_equal.
+  rewrite !reg_step_ret. simpl. unfold site_events.
+  destruct (reg_get r k) as [p|]; [|reflexivity].
+  unfold same_id. simpl. destruct (bytes_eqb (o_proto p) self) eqn:E; simpl; [|rewrite E; reflexivity].
+  destruct (bytes_eqb (o_sid p) sid); simpl; [reflexivity | rewrite E; reflexivity].
+Qed.
+
+Definition wk : key := mkKey 100 10 [2; 170; 187; 204; 0; 1]%N.
+Definition wpp : owner := mkOwner proto_pppoe [112; 57]%N wk.
+(* with a PPPoE claim landing between the two calls, the PPPoE session is displaced and nothing is
+   published; no order of the two atomic operations gives that outcome *)
+Lemma lookup_then_claim_not_atomic :
+  let interloper := fun r => fst (reg_step r (OClaim wk wpp)) in
+  let split := lookup_then_claim proto_ipoe interloper new_registry wk [115; 49]%N in
+  let site_first := component_claim proto_ipoe new_registry wk [115; 49]%N in
+  let site_last := component_claim proto_ipoe (interloper new_registry) wk [115; 49]%N in
+  snd split = [] /\ reg_get (fst split) wk = Some (mkOwner proto_ipoe [115; 49]%N wk) /\
+  (* interloper first: the site must publish the PPPoE session *)
+  snd site_last = [[112; 57]%N] /\
+  (* site first: then the interloper's claim ends up owning the tuple *)
+  reg_get (interloper (fst site_first)) wk = Some wpp.
+Proof. vm_compute. repeat split; reflexivity. Qed.
